@@ -100,6 +100,33 @@ func c14Case(s *core.Sub, cfg core.Cfg, src, ref []byte, k, variant int) {
 		s.Violate("accepted-bytes-not-prefix:"+vs, cfg.String(), src, ops, fmt.Sprintf("bytes accepted before the failure (%d) are not the first %d bytes of the reference output", len(fw.before), len(want)), string(want), string(fw.before))
 	}
 	s.Evals.Add(1)
+	// history: the conversion that follows a failed one, on the same instance and goroutine, must not be affected by
+	// it: a healthy writer receives exactly the output, a failing one a prefix of it
+	if pan == nil && k < len(ref) {
+		for _, k2 := range []int{1 << 30, k / 2} {
+			fw2 := &failWriter{k: k2}
+			var w2 io.Writer = fw2
+			if variant >= 3 {
+				w2 = richWriter{fw2}
+			}
+			var err2 error
+			var pan2 any
+			func() {
+				defer func() { pan2 = recover() }()
+				err2 = md.Convert(src, w2)
+			}()
+			want2 := ref
+			if k2 < len(ref) {
+				want2 = ref[:k2]
+			}
+			s.Evals.Add(1)
+			if pan2 != nil || !bytes.Equal(fw2.before, want2) || (k2 >= len(ref)) != (err2 == nil) {
+				s.Violate("conversion-after-a-failed-one:"+vs, cfg.String(), src, map[string]any{"first_fails_after": k, "second_fails_after": k2, "variant": c14Variants[variant]},
+					fmt.Sprintf("after a conversion whose writer failed at %d, the next conversion on the same instance (writer limit %d) delivered %d bytes that are not the expected %d-byte prefix, err=%v panic=%v", k, k2, len(fw2.before), len(want2), err2, pan2), string(want2), string(fw2.before))
+				break
+			}
+		}
+	}
 }
 
 func c14Doc(s *core.Sub, cfg core.Cfg, src []byte, stride int) {
